@@ -64,6 +64,8 @@ typedef struct {
   int nlinks; link_t **links; long *serials; ogg_int64_t *gpoff; long *start; /* start[i]=pcm start of link i; start[nlinks]=total */
   page_t *pages; int npages;
   int damaged;
+  page_t *pages0; int npages0;      /* the page table before the first damage, and the damages in order (for the model of the open, which is run on the damaged table) */
+  struct { char kind[12]; long a, b; } dmgs[8]; int ndmg;
   long *lbeg, *lend;    /* byte range of each link */
   long *dataoff;        /* byte offset of first audio page of each link */
 } file_t;
